@@ -4,6 +4,8 @@ import (
 	"net"
 	"net/netip"
 	"sync"
+
+	"github.com/IrineSistiana/mosproxy/verifsim/sim"
 	"syscall"
 	"time"
 )
@@ -30,6 +32,7 @@ type UDPConn struct {
 	closed  bool
 	rdl     time.Time
 	icmpErr bool
+	reuse   bool
 	sendCtr map[string]uint64
 
 	// OnRecv is called on the scheduler when a datagram is queued.
@@ -249,8 +252,9 @@ func (w *World) deliverDgram(from *UDPConn, fromConnected bool, src, to netip.Ad
 	w.mu.Lock()
 	var dst *UDPConn
 	for _, k := range lookupKeys(to) {
-		if d := w.udp[k]; d != nil {
-			dst = d
+		if ds := w.udp[k]; len(ds) > 0 {
+			// SO_REUSEPORT group: the kernel picks by a hash of the 4-tuple
+			dst = ds[int(sim.HashStr(src.String())%uint64(len(ds)))]
 			break
 		}
 	}
@@ -294,15 +298,24 @@ func (c *UDPConn) Close() error {
 	c.signalLocked()
 	c.mu.Unlock()
 	c.w.mu.Lock()
-	if c.w.udp[c.key] == c {
+	ds := c.w.udp[c.key]
+	for i, d := range ds {
+		if d == c {
+			ds = append(ds[:i:i], ds[i+1:]...)
+			break
+		}
+	}
+	if len(ds) == 0 {
 		delete(c.w.udp, c.key)
+	} else {
+		c.w.udp[c.key] = ds
 	}
 	c.w.mu.Unlock()
 	c.w.logf("uclose", "%s", c.key)
 	return nil
 }
 
-func (w *World) listenUDP(owner Owner, address string, def netip.Addr) (*UDPConn, error) {
+func (w *World) listenUDP(owner Owner, address string, def netip.Addr, reuse bool) (*UDPConn, error) {
 	var ap netip.AddrPort
 	if address == "" || address == ":0" {
 		ap = netip.AddrPortFrom(netip.IPv6Unspecified(), 0)
@@ -322,12 +335,12 @@ func (w *World) listenUDP(owner Owner, address string, def netip.Addr) (*UDPConn
 		ap = netip.AddrPortFrom(a, w.allocPortLocked(a))
 	}
 	key := ap.String()
-	if _, dup := w.udp[key]; dup {
+	if ds := w.udp[key]; len(ds) > 0 && !(reuse && ds[0].reuse && ds[0].owner == owner) {
 		w.mu.Unlock()
 		return nil, opErr("listen", "udp", sysErr("bind", syscall.EADDRINUSE))
 	}
-	c := &UDPConn{w: w, id: w.newID(), owner: owner, key: key, local: ap, note: make(chan struct{})}
-	w.udp[key] = c
+	c := &UDPConn{w: w, id: w.newID(), owner: owner, key: key, local: ap, note: make(chan struct{}), reuse: reuse}
+	w.udp[key] = append(w.udp[key], c)
 	w.register(c)
 	w.mu.Unlock()
 	w.logf("ulisten", "%s owner=%s", key, owner)
@@ -365,7 +378,7 @@ func (w *World) dialUDP(owner Owner, label string, src netip.Addr, address strin
 	} else {
 		c.Label = "P>" + dk + "#" + itoa(n)
 	}
-	w.udp[c.key] = c
+	w.udp[c.key] = append(w.udp[c.key], c)
 	w.register(c)
 	w.mu.Unlock()
 	w.logf("udial", "%s owner=%s", c.Label, owner)
